@@ -49,6 +49,7 @@ GEN = {
     "PROPS": "CREATE EXTERNAL TABLE p1 (x int) ROW FORMAT SERDE 'a.b.C' WITH SERDEPROPERTIES ('s1'='w1') STORED AS TEXTFILE TBLPROPERTIES ('k1'='v1', 'k2'='v2');",
     "ESC": "CREATE TABLE e1 (j varchar(9) COMMENT 'it\\'s');",
     "ESCBY": "CREATE EXTERNAL TABLE e2 (x int) ROW FORMAT DELIMITED FIELDS TERMINATED BY ',' ESCAPED BY '\\' STORED AS TEXTFILE;",
+    "REGEX2": "CREATE EXTERNAL TABLE r2 (y string) ROW FORMAT SERDE 'org.apache.hadoop.hive.serde2.RegexSerDe' WITH SERDEPROPERTIES (\"input.regex\" = \"([0-9]+),(c|d)\") STORED AS TEXTFILE;",
     "REGEX": "CREATE EXTERNAL TABLE r1 (x string) ROW FORMAT SERDE 'org.apache.hadoop.hive.serde2.RegexSerDe' WITH SERDEPROPERTIES (\"input.regex\" = \"(a|b)\") STORED AS TEXTFILE;",
 }
 ALT = {
